@@ -108,6 +108,15 @@ func (c12) Gen(seed uint64, run int, tier string) *core.Case {
 	if p.Len > 5000 && len(p.Chunks) == 1 && p.Chunks[0] < 64 {
 		p.Chunks = []int{1, 1, 3, 200, 8192}
 	}
+	// bound the number of chunks: every mutation and truncation point decodes the whole stream again, and a
+	// signed chunk header is ~85 bytes, so work grows with the square of the chunk count
+	sum := 0
+	for _, x := range p.Chunks {
+		sum += x
+	}
+	if avg := sum / len(p.Chunks); avg > 0 && p.Len/avg > 150 {
+		p.Chunks = []int{1, 1, 3, 200, 8192}
+	}
 	if small && p.Len > 20 && p.Chunks[0] < 4 {
 		p.Chunks = []int{7, 1, 9}
 	}
